@@ -79,5 +79,5 @@ pub fn strategy() -> BoxedStrategy<Case> {
 }
 
 pub fn plan(tier: Tier) -> Plan<Case> {
-    Plan { strategy: strategy(), check, shrink_iters: 1500, decode_bytes: Some(sdjwt_model::ops::decode_c03), cases: match tier { Tier::Quick => 32_000, Tier::Thorough => 1_200_000 } }
+    Plan { strategy: strategy(), check, shrink_iters: 1500, decode_bytes: Some(sdjwt_model::ops::decode_c03), watchdog_secs: 0, cases: match tier { Tier::Quick => 32_000, Tier::Thorough => 1_200_000 } }
 }
